@@ -2,7 +2,8 @@
 from .common import SCALAR, A_COMMON
 TARGETS = [("rel", "%s_reset_fresh" % c) for c in ("DDM", "EDDM", "STEPD", "PageHinkley")] + \
           [("frame", "%s_update_reads" % c) for c in ("DDM", "EDDM", "STEPD", "PageHinkley")] + \
-          [("fn", SCALAR[c] + ".reset") for c in ("DDM", "EDDM", "STEPD", "PageHinkley", "CUSUM")]
+          [("fn", SCALAR[c] + ".reset") for c in ("DDM", "EDDM", "STEPD", "PageHinkley", "CUSUM")] + \
+          [("fn", "menelaus.data_drift.kdq_tree:KdqTreeStreaming.reset")]
 LEVEL = "proof"
 ASSUMPTIONS = A_COMMON + [
     "clean slate = (i) reset() re-establishes the constructor's post-state on every per-epoch field (relational "
